@@ -1,7 +1,7 @@
 PROP = {
-    "groups": ["e2e-stop"],
+    "groups": ["names", "e2e-stop"],
     "timeout": 600,
-    "rule": "e2e-stop: the real client (filter, in-process) against the real trz/tsz children; a stop is delivered exactly at a sampled write boundary of either direction (client: StopTransferringFiles(keep|delete) called inline in the writer; server: SIGINT), for configurations over direction x base64/binary x protocol field absent/0/2/3/4 x flat files / directory tree / archive mode x overwrite x destinations with pre-existing content incl. a colliding name; oracles: both sides end (never a hang) and within 8 s of the stop, the outcome shown is Stopped / Stopped and deleted or, only with every file complete and identical, success; with delete nothing this transfer created is left and every pre-existing entry is unchanged; with a plain stop a file that reached its full size is intact; every run is non-trivial; distinct = distinct (boundary, kind, side, configuration)",
+    "rule": "names: the real name-creation and deleteCreatedFiles functions against Model/Names.v in deep sandboxes (shared with C07/C09; here for the deletion clause); e2e-stop: the real client (filter, in-process) against the real trz/tsz children; a stop is delivered exactly at a sampled write boundary of either direction (client: StopTransferringFiles(keep|delete) called inline in the writer, or the user's own sequence Ctrl-C then a stop choice in the prompt; server: SIGINT), for configurations over direction x base64/binary x protocol field absent/0/2/3/4 x flat files / directory tree / archive mode x overwrite x destinations with pre-existing content incl. a colliding name; oracles: both sides end (never a hang) and within 8 s of the stop, the outcome shown is Stopped / Stopped and deleted or, only with every file complete and identical, success; with delete nothing this transfer created is left and every pre-existing entry is unchanged; with a plain stop a file that reached its full size is intact; every run is non-trivial; distinct = distinct (boundary, kind, side, configuration)",
     "trusted": ["source tie go/cmd/gen/stop.go (position of the stop checks, text of checkStop, first statements of stopTransferringFiles, nextBuffer's stop arm)",
                 "modelled, not verified: the OS file system beyond Model/Fs.v; wall-clock bounds are measured, not proved"],
     "assumptions": ["a stage that observes the stop error cancels its pipeline (the error paths are Branch [Cancel; Return] in the generated skeletons)"],
